@@ -107,11 +107,11 @@ Theorem gen_warmup_eq w s :
 Proof. reflexivity. Qed.
 
 Theorem gen_cleanup_eq w s :
-  exists w', gen_Simulator_cleanup w s = GRet RNone w' (do_cleanup s).
+  gen_Simulator_cleanup w s = GRet RNone (match worker s with WNone => w | _ => false end) (do_cleanup s).
 Proof.
   unfold gen_Simulator_cleanup, do_cleanup, gen_Simulator__stop_impl, gen_SimulatorWorkerThread_cleanup. unf_py.
   destruct s as [c pd n r q b i st wk rp cr ca tr ou nt ob fl]. ssimpl.
-  destruct wk; cbn; eexists; reflexivity.
+  destruct wk; reflexivity.
 Qed.
 
 (* ====================================================================== *)
@@ -430,8 +430,8 @@ Proof.
   unfold py_worker_is_none.
   destruct (worker s) eqn:Ew; cbn [negb].
   - rewrite py_construct_model_eq. reflexivity.
-  - destruct (gen_cleanup_eq w s) as [w' ->]. cbn [gbind]. rewrite py_construct_model_eq. reflexivity.
-  - destruct (gen_cleanup_eq w s) as [w' ->]. cbn [gbind]. rewrite py_construct_model_eq. reflexivity.
+  - rewrite gen_cleanup_eq. cbn [gbind]. rewrite py_construct_model_eq. reflexivity.
+  - rewrite gen_cleanup_eq. cbn [gbind]. rewrite py_construct_model_eq. reflexivity.
 Qed.
 
 Lemma do_init_unfold p s r :
@@ -493,3 +493,245 @@ Proof.
     + subst r. discriminate.
   - cbn [gbind] in H. inversion H. reflexivity.
 Qed.
+
+(* ====================================================================== *)
+(* whole commands and command sequences                                    *)
+(* ====================================================================== *)
+(* the representation invariant of the Python object the equalities need: a simulator that has been
+   initialised (and not cleaned up since) has a replication and a worker thread *)
+Definition sim_wf (s : sim) : Prop :=
+  (rs s = RNotInit /\ ps s = PNotInit) \/ (rep s <> None /\ worker s <> WNone).
+
+Lemma init_sim_wf st : sim_wf (init_sim st).
+Proof. left. split; reflexivity. Qed.
+
+Lemma wf_worker s : sim_wf s -> rs s <> RNotInit -> worker s <> WNone.
+Proof. intros [[H _]|[_ H]] Hn; [contradiction|exact H]. Qed.
+
+Lemma wf_rep s : sim_wf s -> rs s <> RNotInit -> rep s <> None.
+Proof. intros [[H _]|[H _]] Hn; [contradiction|exact H]. Qed.
+
+Lemma wf_started s : sim_wf s -> ps s = PStarted -> rep s <> None /\ worker s <> WNone.
+Proof. intros [[_ H]|H] Hp; [congruence|exact H]. Qed.
+
+Theorem gen_do_cmd_eq fuel p s c : sim_wf s -> gen_do_cmd fuel p s c = do_cmd fuel p s c.
+Proof.
+  intros Hwf. destruct c; cbn [gen_do_cmd do_cmd].
+  - apply gen_initialize_eq.
+  - apply gen_initialize_bad_eq.
+  - apply gen_start_eq. apply wf_worker. exact Hwf.
+  - rewrite gen_step_eq by (apply wf_rep; exact Hwf). unfold gres_of.
+    destruct (do_step p s) as [s' [|]]; reflexivity.
+  - rewrite gen_stop_eq. destruct (running s); reflexivity.
+  - apply gen_run_up_to_eq. apply wf_worker. exact Hwf.
+  - apply gen_run_up_to_including_eq. apply wf_worker. exact Hwf.
+  - apply gen_end_replication_eq. apply wf_started. exact Hwf.
+  - rewrite gen_cleanup_eq. destruct (worker s); reflexivity.
+Qed.
+
+(* -- the invariant is kept by every command -- *)
+Lemma run_loop_keeps p : forall fuel s, rep (run_loop fuel p s) = rep s /\ worker (run_loop fuel p s) = worker s.
+Proof.
+  induction fuel as [|f IH]; intros s; cbn [run_loop].
+  - destruct (running s); ssimpl; auto.
+  - destruct (running s); [|auto].
+    assert (Hs : rep (stop_at_bound s) = rep s /\ worker (stop_at_bound s) = worker s)
+      by (unfold stop_at_bound; destruct (bound s >=? end_time s); ssimpl; auto).
+    destruct (pend s) as [|e r] eqn:Ep; [exact Hs|].
+    destruct (beyond s e); [exact Hs|].
+    destruct (IH (take_event p s e r)) as [H1 H2].
+    destruct (took_bound _ _ _ _ (take_event_took p s e r Ep)) as (_&_&Hr&_&_&Hw).
+    split; congruence.
+Qed.
+
+Lemma worker_run_keeps fuel p s :
+  rep (worker_run fuel p s) = rep s /\ (worker s <> WNone -> worker (worker_run fuel p s) <> WNone).
+Proof.
+  unfold worker_run. destruct (worker s) eqn:Ew; [auto|idtac|split; [reflexivity|intros _; rewrite Ew; discriminate]].
+  assert (He : forall x, rep (worker_ending x) = rep x /\ (worker x <> WNone -> worker (worker_ending x) <> WNone))
+    by (intros x; unfold worker_ending; destruct (ps x); ssimpl; auto; split; [reflexivity|discriminate]).
+  destruct (ps s).
+  1,2,3,5: (match goal with |- context [worker_ending ?X] => destruct (He X) as [H1 H2] end;
+            destruct (run_loop_keeps p fuel (set_rs RStarted (emit (NStart (clock s)) s))) as [H3 H4];
+            ssimpl; split; [congruence|]; intros _; apply H2; ssimpl; rewrite H4; ssimpl; rewrite Ew; discriminate).
+  destruct (He s) as [H1 H2]. split; [exact H1|]. intros _. apply H2. rewrite Ew. discriminate.
+Qed.
+
+Lemma do_start_keeps fuel p s b i : rep s <> None -> worker s <> WNone ->
+  rep (fst (do_start fuel p s b i)) <> None /\ worker (fst (do_start fuel p s b i)) <> WNone.
+Proof.
+  intros Hr Hk. rewrite do_start_unfold.
+  destruct (start_checks s); [|auto]. destruct b as [bz|]; [|auto].
+  destruct (bz <? clock s); [auto|]. cbn [fst].
+  destruct (worker_run_keeps fuel p (start_prepared s bz i)) as [H1 H2].
+  rewrite H1, start_prepared_rep. split; [exact Hr|]. apply H2.
+  unfold start_prepared. destruct (bz >? end_time s); ssimpl; destruct (ps s); ssimpl; exact Hk.
+Qed.
+
+Theorem do_cmd_wf fuel p s c : sim_wf s -> sim_wf (fst (do_cmd fuel p s c)).
+Proof.
+  intros Hwf. destruct c; cbn [do_cmd].
+  - (* initialize *)
+    rewrite do_init_unfold. destruct (running s); [exact Hwf|]. cbn [fst]. right.
+    set (s5 := initialized p (set_pend [] s) r).
+    assert (Hr : rep s5 = Some r) by apply initialized_rep.
+    assert (Hk : worker s5 = WAlive).
+    { unfold s5, initialized. ssimpl.
+      match goal with |- worker (constructed p ?X) = _ => rewrite (proj1 (proj2 (constructed_frame p X))) end. reflexivity. }
+    destruct (r_warm r <? clock s5); ssimpl; rewrite Hr, Hk; split; discriminate.
+  - exact Hwf.
+  - (* start *)
+    destruct (rep s) as [rp|] eqn:Er; [|exact Hwf].
+    destruct Hwf as [[H1 H2]|[Hr Hk]].
+    + rewrite do_start_unfold. unfold start_checks. rewrite H1. rewrite !andb_false_r. cbn [andb fst]. left; auto.
+    + right. apply do_start_keeps; auto.
+  - (* step *)
+    destruct Hwf as [[H1 H2]|[Hr Hk]].
+    + unfold do_step, step_checks. rewrite H1. rewrite !andb_false_r. cbn [andb fst]. left; auto.
+    + right. unfold do_step. destruct (step_checks s); [|auto]. cbn [fst].
+      set (s1 := match ps s with PInit => set_ps PStarted (emit (NStartRepl (clock s)) s) | _ => s end).
+      assert (E1 : rep s1 = rep s /\ worker s1 = worker s) by (unfold s1; destruct (ps s); ssimpl; auto).
+      set (s2 := emit (NStart (clock s1)) (set_rs RStarted s1)).
+      assert (E2 : rep s2 = rep s /\ worker s2 = worker s) by (unfold s2; ssimpl; exact E1).
+      destruct (pend s2) as [|e r'] eqn:Ep; ssimpl; [destruct E2 as [-> ->]; auto|].
+      destruct (ev_time e >? end_time s2); ssimpl; [destruct E2 as [-> ->]; auto|].
+      destruct (took_bound _ _ _ _ (step_event_took p s2 e r' Ep)) as (_&_&Hr'&_&_&Hw').
+      rewrite Hr', Hw'. destruct E2 as [-> ->]. auto.
+  - (* stop *)
+    destruct (running s) eqn:Erun; [|exact Hwf]. cbn [fst].
+    destruct Hwf as [[H1 H2]|[Hr Hk]].
+    + unfold running in Erun. rewrite H1 in Erun. discriminate.
+    + right. ssimpl. auto.
+  - destruct Hwf as [[H1 H2]|[Hr Hk]].
+    + rewrite do_start_unfold. unfold start_checks. rewrite H1. rewrite !andb_false_r. cbn [andb fst]. left; auto.
+    + right. apply do_start_keeps; auto.
+  - destruct Hwf as [[H1 H2]|[Hr Hk]].
+    + rewrite do_start_unfold. unfold start_checks. rewrite H1. rewrite !andb_false_r. cbn [andb fst]. left; auto.
+    + right. apply do_start_keeps; auto.
+  - (* end_replication *)
+    unfold do_end_repl. destruct (ps s) eqn:Eps; try exact Hwf. cbn [fst].
+    destruct (wf_started s Hwf Eps) as [Hr Hk]. right.
+    match goal with |- context [worker_run fuel p ?X] => destruct (worker_run_keeps fuel p X) as [H1 H2] end.
+    rewrite H1. split.
+    + destruct (clock s <? end_time s); ssimpl; exact Hr.
+    + apply H2. destruct (clock s <? end_time s); ssimpl; exact Hk.
+  - left. unfold do_cleanup. ssimpl. auto.
+Qed.
+
+Theorem reachable_wf p s : reachable p s -> sim_wf s.
+Proof. induction 1; [apply init_sim_wf|apply do_cmd_wf; assumption]. Qed.
+
+Definition gen_run_cmds_stmt := forall fuel p cs s, sim_wf s -> gen_run_cmds fuel p s cs = run_cmds fuel p s cs.
+
+Theorem gen_run_cmds_eq : gen_run_cmds_stmt.
+Proof.
+  intros fuel p cs. induction cs as [|c r IH]; intros s Hwf; cbn [gen_run_cmds run_cmds]; [reflexivity|].
+  rewrite gen_do_cmd_eq by exact Hwf.
+  pose proof (do_cmd_wf fuel p s c Hwf) as Hwf'.
+  destruct (do_cmd fuel p s c) as [s1 res]. cbn [fst] in Hwf'. rewrite IH by exact Hwf'. reflexivity.
+Qed.
+
+(* ====================================================================== *)
+(* summary, and the main C02 theorems over the generated definitions       *)
+(* ====================================================================== *)
+Theorem sim_generated_agree :
+  (forall s m prio h, gen_sched s m prio h = do_sched s m prio h) /\
+  (forall s k, gen_cancel s k = do_cancel s k) /\
+  (forall w s, gen_Simulator_stop w s =
+               if running s then GRet RNone w (set_rs RStopping (emit NStopping s)) else GExc EDSOL w s) /\
+  (forall md p s e, gen_exec_event md p s e = exec_event md p s e) /\
+  (forall p w s, (rs s <> RNotInit -> rep s <> None) -> gen_Simulator_step p w s = gres_of w (do_step p s)) /\
+  (forall p fuel w s, rep s <> None -> gen_DEVSSimulator__run fuel p w s = GRet RNone w (run_loop fuel p s)) /\
+  (forall fuel p w s, rep s <> None -> gen_SimulatorWorkerThread_run fuel p w s = GRet RNone w (worker_run fuel p s)) /\
+  (forall fuel p s t i, (rs s <> RNotInit -> worker s <> WNone) ->
+     gen_settle fuel p (gen_Simulator__start_impl false s t i) = do_start fuel p s t i) /\
+  (forall fuel p s c, sim_wf s -> gen_do_cmd fuel p s c = do_cmd fuel p s c) /\
+  (forall fuel p cs s, sim_wf s -> gen_run_cmds fuel p s cs = run_cmds fuel p s cs) /\
+  (forall p s, reachable p s -> sim_wf s).
+Proof.
+  split; [exact gen_sched_eq|]. split; [exact gen_cancel_eq|]. split; [exact gen_stop_eq|].
+  split; [exact gen_exec_event_eq|]. split; [exact gen_step_eq|].
+  split; [intros; apply gen_run_eq; assumption|]. split; [exact gen_worker_run_eq|].
+  split; [exact settle_start_eq|]. split; [exact gen_do_cmd_eq|]. split; [exact gen_run_cmds_eq|].
+  exact reachable_wf.
+Qed.
+
+(* the states the generated commands reach from a fresh simulator are the reachable states of the model *)
+Inductive gen_reachable (p : program) : sim -> Prop :=
+| gen_reach_init st : gen_reachable p (init_sim st)
+| gen_reach_cmd s fuel c : gen_reachable p s -> gen_reachable p (fst (gen_do_cmd fuel p s c)).
+
+Theorem gen_reachable_iff p s : gen_reachable p s <-> reachable p s.
+Proof.
+  split; induction 1; try constructor.
+  - rewrite gen_do_cmd_eq by (apply (reachable_wf p); assumption). constructor. assumption.
+  - rewrite <- gen_do_cmd_eq by (apply (reachable_wf p); assumption). constructor. assumption.
+Qed.
+
+Theorem gen_invariant_reachable p s : gen_reachable p s -> Inv s.
+Proof. intros H. apply (reachable_inv p). apply gen_reachable_iff. exact H. Qed.
+
+Theorem gen_at_most_once p s : gen_reachable p s -> NoDup (map ev_id (executed s)).
+Proof. intros H. apply (at_most_once p). apply gen_reachable_iff. exact H. Qed.
+
+Theorem gen_run_loop_is_a_sequence_of_takes p fuel w s : rep s <> None ->
+  exists evs s1 s2, runs p s evs s1 /\ loop_exit s1 s2 /\ gen_DEVSSimulator__run fuel p w s = GRet RNone w s2.
+Proof.
+  intros Hr. destruct (run_loop_runs p fuel s) as [evs [s1 [H1 H2]]].
+  exists evs, s1, (run_loop fuel p s). repeat split; auto. apply gen_run_eq. exact Hr.
+Qed.
+
+Theorem gen_illegal_refused s m prio h :
+  match m with
+  | MNow => False
+  | MRel (TNum d) => d < 0
+  | MRel TNaN => True
+  | MAbs (TNum t) => t < clock s
+  | MAbs TNaN => True
+  end ->
+  gen_sched s m prio h = out ORefused s
+  /\ pend (gen_sched s m prio h) = pend s /\ nid (gen_sched s m prio h) = nid s.
+Proof.
+  intros H. rewrite gen_sched_eq. rewrite (illegal_refused_eq s m prio h H). repeat split.
+Qed.
+
+Theorem gen_legal_accepted s m prio h :
+  ~ illegal s m ->
+  exists t, sched_time s m = Some t /\ clock s <= t /\
+    gen_sched s m prio h = out OAccepted (add_event t prio (HUser h) s).
+Proof.
+  intros H. rewrite gen_sched_eq. destruct (legal_accepted s m prio h H) as [t [H1 H2]].
+  exists t. repeat split; auto. eapply sched_time_some; eauto.
+Qed.
+
+Theorem gen_cancel_pending_removes s k e :
+  Inv s -> Acct s -> nth_error (created s) k = Some e -> In e (pend s) ->
+  Permutation.Permutation (pend s) (e :: pend (gen_cancel s k)) /\ cancelled (gen_cancel s k) = e :: cancelled s.
+Proof. rewrite gen_cancel_eq. apply cancel_pending_removes. Qed.
+
+Theorem gen_cancel_done_noop s k e :
+  Inv s -> nth_error (created s) k = Some e -> In e (executed s) \/ In e (cancelled s) -> gen_cancel s k = s.
+Proof. rewrite gen_cancel_eq. apply cancel_done_noop. Qed.
+
+Theorem gen_start_complete p fuel s r :
+  sim_wf s -> Inv s -> Acct s -> rep s = Some r -> ps s <> PEnded ->
+  let s' := fst (gen_do_cmd fuel p s CStart) in
+  ps s' = PEnded ->
+  exists evs newc,
+    executed s' = rev evs ++ executed s
+    /\ created s' = created s ++ newc
+    /\ clock s' = r_end r
+    /\ (forall e, In e evs -> In e (pend s) \/ In e newc)
+    /\ (forall e, In e (pend s) \/ In e newc ->
+          (In e evs <-> (~ In e (cancelled s') /\ ev_time e <= r_end r)))
+    /\ (forall e, In e (pend s') -> r_end r < ev_time e).
+Proof. intros Hwf. rewrite gen_do_cmd_eq by exact Hwf. apply start_complete. Qed.
+
+Theorem gen_run_cmds_mono p fuel cs s :
+  sim_wf s -> Inv s -> forallb (fun c => negb (is_init c)) cs = true ->
+  let s' := fst (gen_run_cmds fuel p s cs) in
+  clock s <= clock s' /\
+  exists new, trace s' = new ++ trace s
+    /\ Forall (fun ec => clock s <= snd ec <= clock s') new
+    /\ Sorting.Sorted.StronglySorted (fun a b : ev * Z => snd b <= snd a) new.
+Proof. intros Hwf. rewrite gen_run_cmds_eq by exact Hwf. apply run_cmds_mono. Qed.
